@@ -280,11 +280,12 @@ def attribute(res):
         e['obligation'] = oid
         e['tags'] = sorted(tags)
         e['origin_line'] = fl
-        # the function lost its proof overlay (extract.py degraded mode) and still has loops: a failure there is most likely a missing
-        # invariant, so it is undecided; in loop-free code the contract alone decides
-        # ... unless the failing program point lies in the straight-line prefix in front of the function's first loop
-        e['undecided_shape'] = bool(f and f.get('degraded') and f.get('has_loops')
-                                    and not (f.get('first_loop_line') and 0 < fl < f['first_loop_line']))
+        # the function lost part of its proof overlay (extract.py degraded mode). A failure there is reported only when it cannot be an
+        # artefact of the lost overlay: the function is now loop-free (no invariant can be missing) AND nothing but loop directives /
+        # loop-rewrite rules was dropped (no ghost hint, closure contract, float wrapper or call redirection is missing). Otherwise the
+        # obligation is undecided. (A first version also decided loop-free functions that had lost a ghost hint; the harmless edit H7 -
+        # a dropped bit-vector hint - showed that this raises false alarms.)
+        e['undecided_shape'] = bool(f and f.get('degraded') and (f.get('has_loops') or f.get('degraded_hint_lost')))
         e['degraded'] = (f.get('degraded') if f else None)
 
 
